@@ -124,7 +124,12 @@ def _scenario(rng):
     variables with a dimension of their own; (b) masked variables carrying packing attributes through operations that
     store derived arrays (eval, reorderDimensions, file arithmetic, legacy slice_dim); (c) IOAPI files constructed with
     their own TFLAG (from_arrays(..., TFLAG=...), hand-built + updatemeta) and what is derived from them"""
-    k = rng.choice(['getvar', 'getvar', 'packed', 'packed', 'ioapi_tflag', 'evalshape', 'ioapi_addvar', 'maskshare'])
+    k = rng.choice(['getvar', 'getvar', 'packed', 'packed', 'ioapi_tflag', 'evalshape', 'ioapi_addvar', 'maskshare', 'subsetcoords'])
+    if k == 'subsetcoords':
+        # subsetVariables on a file whose list of coordinate names is ahead of (or behind) its variables: a coordinate
+        # variable was renamed, a name was registered before the variable exists; the names given as a list or a tuple
+        return dict(family='scenario', kind=k, nx=rng.randint(1, 3), ny=rng.randint(1, 3),
+                    how=rng.choice(['renamed', 'ahead', 'plain']), astuple=rng.random() < 0.5, exclude=rng.random() < 0.3)
     if k == 'evalshape':
         # eval with its default arguments where the first variable named has fewer dimensions than the result
         return dict(family='scenario', kind=k, nt=rng.randint(1, 2), nl=rng.randint(1, 3), ny=rng.randint(1, 2), nx=rng.randint(1, 3),
@@ -174,7 +179,26 @@ def _impl_scenario(c):
         states.append(st)
     with lib.pnc_warnings(), np.errstate(all='ignore'):
         try:
-            if c['kind'] == 'getvar':
+            if c['kind'] == 'subsetcoords':
+                f = pnc.PseudoNetCDFFile()
+                f.createDimension('x', c['nx'])
+                f.createDimension('y', c['ny'])
+                for name, dims in (('x', ('x',)), ('y', ('y',)), ('A', ('y', 'x')), ('B', ('x',))):
+                    v = f.createVariable(name, 'd', dims)
+                    v[...] = np.arange(v.size, dtype='d').reshape(v.shape)
+                f.setCoords(['x', 'y'])
+                rec(f, 'built')
+                if c['how'] == 'renamed':
+                    f = f.renameVariables(x='xx')
+                    rec(f, 'renameVariables')
+                elif c['how'] == 'ahead':
+                    f.setCoords(['lat'], missing='ignore')
+                keys = ('B',) if c['exclude'] else ('A',)
+                g = f.subsetVariables(keys if c['astuple'] else list(keys), exclude=c['exclude'])
+                rec(g, 'subsetVariables')
+                if 'A' not in g.variables or 'B' in g.variables:
+                    states.append(dict(err='Content', msg='subsetVariables kept %s' % sorted(g.variables)))
+            elif c['kind'] == 'getvar':
                 from PseudoNetCDF.core._functions import getvarpnc
                 f = pnc.PseudoNetCDFFile()
                 lens = dict(time=c['nt'], x=c['nx'], y=c['ny'])
